@@ -246,6 +246,13 @@ def run(ck, tier):
         if fnd.construct.endswith(('.getValues', '.setValues', '.validate')):
             ck.finding('R6', fnd.construct, fnd.detail, fnd.loc, fnd.message + ' — a write changes cells other than the addressed ones / a read returns other cells')
     ck.broken += sub.broken
+    ck.rule('R7', 'the responses of the data-access functions are encoded as specified (shared with C01 R2): what a read returns on the wire is what getValues returned')
+    from ..share import import_findings
+    import_findings(ck, 'C01', 'R7', ('R2',), 'a client reading back a cell sees another value than the one stored',
+                    construct_contains=('ReadBitsResponseBase', 'ReadCoilsResponse', 'ReadDiscreteInputsResponse', 'ReadRegistersResponseBase',
+                                        'ReadHoldingRegistersResponse', 'ReadInputRegistersResponse', 'ReadWriteMultipleRegistersResponse',
+                                        'WriteSingleCoilResponse', 'WriteSingleRegisterResponse', 'WriteMultipleCoilsResponse',
+                                        'WriteMultipleRegistersResponse', 'MaskWriteRegisterResponse'))
     ck.assume('histories are not decided: that a read returns the latest write follows from R2 + C18 shapes, it is not itself checked')
     ck.assume('only the in-memory ModbusSlaveContext is analysed, not arbitrary datastore implementations')
     return cx.idx
